@@ -76,6 +76,13 @@ def same_elem(a, b):
     return fa == fb or (math.isnan(fa) and math.isnan(fb))
 
 
+def is_aei(kind, el):
+    """all-empty-inner: an element of a kind with >= 2 nesting levels that is not
+    empty at the outer level but holds no coordinate at all ([[]], [[], []], [[[]]], ...)"""
+    return (G.LEVELS[kind] >= 2 and el is not None and len(el) > 0
+            and len(G.flat_coords(el)) == 0)
+
+
 def export(kind, arr):
     return C.Rec('RFix', C.export_fixarr(arr)) if kind == 'point' \
         else C.Rec('RList', C.export_listarr(arr))
@@ -218,6 +225,7 @@ def apply_step(kind, arr, st, notes=None):
             finally:
                 if notes is not None and not np.array_equal(before, key):
                     notes['index_array_mutated'] = notes.get('index_array_mutated', 0) + 1
+                    notes['mutated_now'] = True
         if form == 'Int64':
             return arr[pd.array(ix, dtype='Int64')]
         if form == 'tuple':
@@ -255,6 +263,7 @@ def apply_step(kind, arr, st, notes=None):
         finally:
             if before is not None and notes is not None and not np.array_equal(before, key):
                 notes['index_array_mutated'] = notes.get('index_array_mutated', 0) + 1
+                notes['mutated_now'] = True
     if op == 'concat':
         pieces = [arr[slice(a, b)] for a, b in st['args']]
         if form == 'pd_concat':
